@@ -17,6 +17,14 @@ Theorem C01_weighted_pauli_string_is_unitary :
 Proof. intros K L n p w _. apply wmatrix_unitary. Qed.
 Print Assumptions C01_weighted_pauli_string_is_unitary.
 
+(** PauliOperator.is_unitary() is the stub `raise NotImplementedError` (asserted by gen/pauli.py,
+    fail closed): a Pauli operator never claims to be unitary, so the clause holds of it vacuously.
+    If the method is ever implemented this obligation breaks and checks/pauli_flags.py evaluates
+    the claims on concrete operators (complex relative phases, anti-commuting mixtures). *)
+Theorem C01_pauli_operator_never_claims_unitary : gen_operator_is_unitary_never_claims = true.
+Proof. reflexivity. Qed.
+Print Assumptions C01_pauli_operator_never_claims_unitary.
+
 Example C01_pauli_instance :
   wfp 2 {| pz := [true; false]; px := [true; true]; pq := 3 |} /\
   smul (s:=ZI) (0, 1)%Z (sconj (s:=ZI) (0, 1)%Z) = s1.
